@@ -310,3 +310,15 @@ def _m_prefix_skip(mod):
         return False
 
     return mod if replace_in_func(mod, "list_modelica_files", edit) else None
+
+
+@SPEC.mutant("files in hidden directories are filtered by the whole path", CLI, "R27.6", "finds is listed")
+def _m_hidden_filter(mod):
+    def edit(fn):
+        for lp in ast.walk(fn):
+            if isinstance(lp, ast.For) and ".glob(" in norm(lp.iter):
+                lp.body.insert(0, ast.parse("if any(part.startswith('.') for part in %s.parts):\n    continue" % norm(lp.target)).body[0])
+                return True
+        return False
+
+    return mod if replace_in_func(mod, "list_modelica_files", edit) else None
